@@ -22,7 +22,7 @@ pub struct Profile {
     pub min_ops: usize,
     pub max_ops: usize,
     /// weights, see `OPK`
-    pub w: [u32; 17],
+    pub w: [u32; 18],
     /// probability (percent) that the blocker is on
     pub blocker_pct: u64,
     pub obs_level: u8,
@@ -43,9 +43,9 @@ pub struct Profile {
 }
 
 // indexes into Profile::w
-pub const OPK: [&str; 17] = [
+pub const OPK: [&str; 18] = [
     "store_new", "new_version", "resubmit", "deletion", "remove", "vanish", "query", "reopen_drop", "reopen_close",
-    "reopen_copy", "rebuild", "extra_put", "extra_del", "clock", "take_ref", "fail", "crash",
+    "reopen_copy", "rebuild", "extra_put", "extra_del", "clock", "take_ref", "fail", "crash", "starve",
 ];
 
 pub fn profile(prop: &str) -> Profile {
@@ -55,7 +55,7 @@ pub fn profile(prop: &str) -> Profile {
         min_ops: 12,
         max_ops: 36,
         //  new ver res del rem van qry rdr rcl rcp rbd xpt xdl clk ref fail crash
-        w: [30, 12, 8, 8, 6, 2, 6, 2, 2, 2, 1, 2, 1, 1, 0, 0, 0],
+        w: [30, 12, 8, 8, 6, 2, 6, 2, 2, 2, 1, 2, 1, 1, 0, 0, 0, 0],
         blocker_pct: 50,
         obs_level: 0,
         kind_w: [40, 20, 20, 6, 6, 8],
@@ -69,7 +69,7 @@ pub fn profile(prop: &str) -> Profile {
     match prop {
         "C04" => Profile {
             prop: "C04",
-            w: [44, 8, 6, 6, 6, 1, 2, 3, 3, 3, 0, 1, 0, 0, 0, 3, 0],
+            w: [44, 8, 6, 6, 6, 1, 2, 3, 3, 3, 0, 1, 0, 0, 0, 3, 0, 1],
             size_w: [8, 30, 32, 20, 10],
             ..base
         },
@@ -77,7 +77,7 @@ pub fn profile(prop: &str) -> Profile {
             prop: "C05",
             min_ops: 30,
             max_ops: 90,
-            w: [20, 6, 2, 4, 3, 1, 60, 1, 1, 1, 0, 0, 0, 4, 0, 0, 0],
+            w: [20, 6, 2, 4, 3, 1, 60, 1, 1, 1, 0, 0, 0, 4, 0, 0, 0, 0],
             size_w: [20, 70, 10, 0, 0],
             query_burst: (4, 14),
             blocker_pct: 10,
@@ -85,7 +85,7 @@ pub fn profile(prop: &str) -> Profile {
         },
         "C09" => Profile {
             prop: "C09",
-            w: [14, 40, 14, 8, 5, 1, 5, 1, 1, 1, 0, 0, 0, 0, 0, 0, 0],
+            w: [14, 40, 14, 8, 5, 1, 5, 1, 1, 1, 0, 0, 0, 0, 0, 0, 0, 0],
             kind_w: [10, 35, 40, 3, 2, 10],
             size_w: [30, 65, 5, 0, 0],
             obs_level: 1,
@@ -95,7 +95,7 @@ pub fn profile(prop: &str) -> Profile {
         },
         "C10" => Profile {
             prop: "C10",
-            w: [28, 12, 6, 34, 3, 1, 3, 1, 1, 1, 0, 0, 0, 0, 0, 0, 0],
+            w: [28, 12, 6, 34, 3, 1, 3, 1, 1, 1, 0, 0, 0, 0, 0, 3, 0, 4],
             kind_w: [35, 30, 30, 2, 1, 2],
             size_w: [30, 65, 5, 0, 0],
             obs_level: 1,
@@ -103,7 +103,7 @@ pub fn profile(prop: &str) -> Profile {
         },
         "C11" => Profile {
             prop: "C11",
-            w: [18, 16, 16, 30, 3, 1, 2, 2, 2, 2, 3, 0, 0, 0, 0, 0, 0],
+            w: [18, 16, 16, 30, 3, 1, 2, 2, 2, 2, 3, 0, 0, 0, 0, 3, 0, 4],
             kind_w: [30, 30, 35, 2, 1, 2],
             size_w: [30, 65, 5, 0, 0],
             obs_level: 1,
@@ -115,7 +115,7 @@ pub fn profile(prop: &str) -> Profile {
             mode: Mode::FailEnum,
             min_ops: 8,
             max_ops: 22,
-            w: [26, 16, 14, 24, 4, 1, 0, 1, 1, 1, 0, 2, 0, 0, 0, 0, 0],
+            w: [26, 16, 14, 24, 4, 1, 0, 1, 1, 1, 0, 2, 0, 0, 0, 0, 0, 0],
             size_w: [10, 45, 25, 15, 5],
             obs_level: 1,
             ..base
@@ -125,7 +125,7 @@ pub fn profile(prop: &str) -> Profile {
             mode: Mode::Crash,
             min_ops: 5,
             max_ops: 14,
-            w: [34, 12, 6, 12, 8, 5, 0, 2, 3, 1, 0, 1, 0, 0, 0, 0, 8],
+            w: [34, 12, 6, 12, 8, 5, 0, 2, 3, 1, 0, 1, 0, 0, 0, 0, 8, 0],
             size_w: [10, 40, 30, 15, 5],
             obs_level: 1,
             blocker_pct: 20,
@@ -133,14 +133,14 @@ pub fn profile(prop: &str) -> Profile {
         },
         "C15" => Profile {
             prop: "C15",
-            w: [50, 6, 4, 4, 4, 1, 2, 1, 1, 1, 0, 0, 0, 0, 22, 2, 0],
+            w: [50, 6, 4, 4, 4, 1, 2, 1, 1, 1, 0, 0, 0, 0, 22, 2, 0, 0],
             size_w: [5, 30, 35, 20, 10],
             blocker_pct: 80,
             ..base
         },
         "C16" => Profile {
             prop: "C16",
-            w: [26, 12, 8, 14, 5, 2, 2, 5, 5, 5, 7, 6, 2, 0, 0, 2, 0],
+            w: [26, 12, 8, 14, 5, 2, 2, 5, 5, 5, 7, 6, 2, 0, 0, 2, 0, 1],
             obs_level: 1,
             odd_values_pct: 40,
             max_extra: 3,
@@ -148,7 +148,7 @@ pub fn profile(prop: &str) -> Profile {
         },
         "C17" => Profile {
             prop: "C17",
-            w: [36, 12, 8, 10, 10, 3, 2, 1, 1, 1, 1, 0, 0, 0, 0, 1, 0],
+            w: [36, 12, 8, 10, 10, 3, 2, 1, 1, 1, 1, 0, 0, 0, 0, 1, 0, 1],
             size_w: [30, 65, 5, 0, 0],
             obs_level: 1,
             drain_pct: 70,
@@ -157,7 +157,7 @@ pub fn profile(prop: &str) -> Profile {
         },
         "C18" => Profile {
             prop: "C18",
-            w: [34, 8, 10, 6, 18, 12, 3, 1, 1, 1, 0, 2, 1, 0, 0, 0, 0],
+            w: [34, 8, 10, 6, 18, 12, 3, 1, 1, 1, 0, 2, 1, 0, 0, 5, 0, 3],
             kind_w: [35, 12, 12, 14, 22, 5],
             size_w: [30, 65, 5, 0, 0],
             obs_level: 1,
@@ -168,7 +168,7 @@ pub fn profile(prop: &str) -> Profile {
             prop: "C14",
             min_ops: 4,
             max_ops: 10,
-            w: [50, 20, 0, 10, 5, 0, 0, 0, 0, 0, 0, 0, 0, 0, 0, 0, 0],
+            w: [50, 20, 0, 10, 5, 0, 0, 0, 0, 0, 0, 0, 0, 0, 0, 0, 0, 0],
             size_w: [20, 50, 25, 5, 0],
             blocker_pct: 0,
             ..base
@@ -847,12 +847,78 @@ impl Gen {
                     }
                 }
                 "fail" => {
-                    // the next store has one of its fail-point calls fail, then is retried
-                    let k = self.rng.below(6) as u32;
-                    let e = self.new_event();
-                    self.apply_store_to_gen_model(&e);
-                    ops.push(Op::Fail(k));
-                    ops.push(Op::Store(e));
+                    // the next mutating op has one of its fail-point calls fail (a store is then
+                    // retried without the fault by the executor)
+                    match self.rng.weighted(&[55, 20, 10, 15]) {
+                        0 => {
+                            let k = self.rng.below(6) as u32;
+                            let e = self.new_event();
+                            self.apply_store_to_gen_model(&e);
+                            ops.push(Op::Fail(k));
+                            ops.push(Op::Store(e));
+                        }
+                        1 => {
+                            let k = self.rng.below(8) as u32;
+                            let e = self.deletion();
+                            self.apply_store_to_gen_model(&e);
+                            ops.push(Op::Fail(k));
+                            ops.push(Op::Store(e));
+                        }
+                        2 => {
+                            let known: Vec<B32> = self.model.retrievable.iter().copied().collect();
+                            if !known.is_empty() {
+                                let id = *self.rng.pick(&known);
+                                ops.push(Op::Fail(0));
+                                ops.push(Op::Remove(id));
+                                // the executor's model follows the real outcome; the generator's own
+                                // model assumes the removal failed
+                            }
+                        }
+                        _ => {
+                            let pk = *self.rng.pick(&self.authors);
+                            // fail the k-th removal of the vanish
+                            let k = self.rng.below(4) as u32;
+                            ops.push(Op::Fail(k));
+                            ops.push(Op::Vanish(pk));
+                            // then again without the fault (the job is finished)
+                            let _ = self.model.apply_vanish(&pk);
+                            ops.push(Op::Vanish(pk));
+                        }
+                    }
+                }
+                "starve" => {
+                    // the next mutating op runs with LMDB's reader table exhausted
+                    match self.rng.weighted(&[55, 25, 10, 10]) {
+                        0 => {
+                            let e = self.deletion();
+                            ops.push(Op::Starve);
+                            ops.push(Op::Store(e.clone()));
+                            // retried afterwards without the fault
+                            self.apply_store_to_gen_model(&e);
+                            ops.push(Op::Store(e));
+                        }
+                        1 => {
+                            let e = self.new_version();
+                            ops.push(Op::Starve);
+                            ops.push(Op::Store(e.clone()));
+                            self.apply_store_to_gen_model(&e);
+                            ops.push(Op::Store(e));
+                        }
+                        2 => {
+                            let pk = *self.rng.pick(&self.authors);
+                            ops.push(Op::Starve);
+                            ops.push(Op::Vanish(pk));
+                        }
+                        _ => {
+                            let known: Vec<B32> = self.model.retrievable.iter().copied().collect();
+                            if !known.is_empty() {
+                                let id = *self.rng.pick(&known);
+                                let _ = self.model.apply_remove(&id);
+                                ops.push(Op::Starve);
+                                ops.push(Op::Remove(id));
+                            }
+                        }
+                    }
                 }
                 "crash" => {
                     // the next mutating op is killed at one of its points and the run continues
